@@ -259,6 +259,12 @@ def number_pool(tier):
         add(str(i))
         if i:
             add(str(-i))
+    # exact multiples of the units reached by negative digits, and their neighbours (300000 * 10**-5 is not 3)
+    for j in range(2, 8):
+        for m in range(1, 10):
+            for dlt in (0, 1, -1):
+                add(str(m * 10 ** j + dlt))
+                add(str(-(m * 10 ** j + dlt)))
     return out
 
 
